@@ -8,6 +8,34 @@
 //
 // Semantic actions (documented in lib/lrtv.py, identical in native/lr_dump.cpp): leaf value = token + 1; the action of rule r applied to the
 // popped values c1..ck (c1 = value of the LAST right-side symbol) is  v = r+1; v = (v*31 + c1) mod 2^31; ...; v = (v*31 + ck) mod 2^31.
+#ifdef LR_GETERRORS
+// ------------------------------------------------------------------------------------------------ C12: MacroDetector::getErrors (symbolic)
+// The detector object is not constructed (its constructor runs the table generator); only the members getErrors() reads are set up: the result of
+// table generation (symbolic: empty / one conflict / two conflicts) and the first token of the pattern with a symbolic file name and line.
+#include "Compiler/src/macro.cpp"
+extern "C" { int nondet_int(); }
+extern "C" { int CEX_nconf, CEX_line, CEX_file; }
+extern "C" void h_get_errors() {
+  alignas(MacroDetector) static char raw[sizeof(MacroDetector)];
+  MacroDetector &d = *(MacroDetector *)(void *)raw;
+  new (&d.md) MacroDefinition(); new (&d.gen_res) std::vector<LRParser<MacroDetector::Accumulation, Token>::GenerationResult>();
+  int nconf = nondet_int(); __CPROVER_assume(nconf >= 0 && nconf <= 2); CEX_nconf = nconf;
+  for (int i = 0; i < 2; i++) if (i < nconf) d.gen_res.push_back({nondet_int() & 1 ? LRParser<MacroDetector::Accumulation, Token>::GenerationResult::SHIFT_REDUCE_ERR : LRParser<MacroDetector::Accumulation, Token>::GenerationResult::REDUCE_REDUCE_ERR, std::string("c")});
+  int line = nondet_int(), line2 = nondet_int(); CEX_line = line;
+  char f = (char)nondet_int(); __CPROVER_assume(f >= 'a' && f <= 'z'); CEX_file = f;
+  std::string file; file.__push(f);
+  d.md.rule.push_back(Token(Token::ID_TEMP, "<ID>", file, line));
+  d.md.rule.push_back(Token(Token::PROGSEP, ";", "z2", line2));          // a second pattern token elsewhere: the error must not be located there
+  std::vector<ParseError> e = d.getErrors();
+  if (nconf == 0) __CPROVER_assert(e.n == 0, "C12: a pattern whose table generation reported no conflict gets no error");
+  else {
+    __CPROVER_assert(e.n == 1, "C12: a pattern whose table generation reported a conflict gets exactly one error");
+    bool ok = e.n == 1 && e.u.d[0].t == ParseError::MACRO_COMPILE_NON_LR && e.u.d[0].line == line && e.u.d[0].file == file;
+    __CPROVER_assert(ok, "C12: the error is MACRO_COMPILE_NON_LR at the file and line of the pattern's first token (the position of the definition)");
+  }
+  __CPROVER_assert(0, "WITNESS: end of h_get_errors reachable");
+}
+#else
 #include LR_DATA
 #include <functional>
 #include <vector>
@@ -43,6 +71,11 @@ static inline unsigned mul2(unsigned a, unsigned b) { unsigned z = (unsigned)(a 
 static inline unsigned sel(unsigned c, unsigned a, unsigned b) { unsigned m = 0u - (unsigned)(c != 0u); return (a & m) | (b & ~m); }   /* c ? a : b */
 static inline unsigned times31(unsigned x) { return (x << 5) - x; }
 
+#ifdef LR_ORACLE
+// the same table specialised to the grammar: straight-line code generated by lib/lrtv.py gen_oracle() (only the rule/span/split combinations that can
+// contribute); the loop version below is the fallback and the second implementation in the native self-test
+#include LR_ORACLE
+#else
 static void oracle() {
   NOUNROLL for (int X = 0; X < LR_NNT; X++) NOUNROLL for (int i = 0; i <= LR_N; i++) NOUNROLL for (int j = 0; j <= LR_N; j++) { CNT[X][i][j] = 0;
 #if LR_VALUES
@@ -96,6 +129,8 @@ static void oracle() {
   }
 }
 
+#endif  /* LR_ORACLE */
+
 #ifndef LR_ORACLE_SELFTEST
 // ------------------------------------------------------------------------------------------------ the natively generated tables
 // Semantic actions: captureless closures (the std::function model then keeps nothing in its capture buffer; reading a captured rule id out of a
@@ -121,9 +156,10 @@ static void load_tables(IP &p) {
   for (int s = 0; s < LR_NS; s++) {
     std::vector<IP::Action> row;
     for (int a = 0; a < LR_W; a++) {
-      IP::Action act((IP::Action::Type)LR_T[s][a]);
-      act.state = LR_ST[s][a]; act.left = LR_LEFT[s][a]; act.beta = LR_BETA[s][a];
-      if (LR_T[s][a] == (int)IP::Action::REDUCE) set_action(act, LR_RID[s][a]);
+      const unsigned x = LR_CELL[s][a];
+      IP::Action act((IP::Action::Type)(x & 3u));
+      act.state = (int)((x >> 2) & 1023u); act.left = (int)((x >> 12) & 15u); act.beta = (int)((x >> 16) & 15u);
+      if ((x & 3u) == (unsigned)IP::Action::REDUCE) set_action(act, (int)((x >> 20) & 31u));
       row.n = a + 1; row.u.d[a] = act;
     }
     p.action.n = s + 1; new (&p.action.u.d[s]) std::vector<IP::Action>(row);
@@ -139,7 +175,7 @@ static void load_tables(IP &p) {
 // Equivalent to the real containers holding these tables as long as the driver uses every table reference immediately (no reference to a
 // row or cell is live across another table access, nothing is written through one): lib/lrtv.py checks that textually on parse() on every run,
 // and one plain-mode job per run cross-checks the view on a small instance.
-static int VIEW_ROW, VIEW_JROW, VIEW_RID;
+static int VIEW_ROW, VIEW_JROW, VIEW_RID, VIEW_CVALID, VIEW_CS, VIEW_CA; static unsigned VIEW_CX;
 static std::vector<IP::Action> *VIEW_ACTROW; static IP::Action *VIEW_CELL; static std::vector<int> *VIEW_JUMPROW; static int VIEW_JCELL;
 extern "C" std::vector<IP::Action> *lr_view_action_row(std::vector<std::vector<IP::Action>> *self, unsigned long s) {
   ASSERT(s < (unsigned long)self->n, "ministl: vector index out of range (UB)");
@@ -149,9 +185,28 @@ extern "C" IP::Action *lr_view_action_cell(std::vector<IP::Action> *self, unsign
   ASSERT(self == VIEW_ACTROW, "ministl: table view used for another vector (model bound)");
   ASSERT(a < (unsigned long)LR_W, "ministl: vector index out of range (UB)");
   int s = VIEW_ROW; if (s < 0 || s >= LR_NS) s = 0; if (a >= (unsigned long)LR_W) a = 0;
+#ifdef LR_COLMAP
+  a = LR_COL[a];      // identical columns (terminals that no state of the table mentions) are stored once: a = column class of terminal a
+#endif
   IP::Action *c = VIEW_CELL;
-  c->t = (IP::Action::Type)LR_T[s][a]; c->state = LR_ST[s][a]; c->left = LR_LEFT[s][a]; c->beta = LR_BETA[s][a];
-  VIEW_RID = LR_RID[s][a];
+  // one packed word per cell (type:2 | state:10 | left:4 | beta:4 | rule id:5): a single table read per access; the same (s, a) read again by
+  // the driver in the same iteration is the same expression for the solver
+  // The driver reads up to five fields of the same cell per iteration; the cell is looked up once per iteration: the lookup is kept until the
+  // driver reads its next token (*ip), and every reuse asserts that it is the addressed cell.
+  unsigned x;
+  if (VIEW_CVALID) {
+    ASSERT(s == VIEW_CS && (int)a == VIEW_CA, "ministl: table view: the cell kept since the last token read is the addressed one (model bound)");
+    x = VIEW_CX;
+  } else {
+#ifdef LR_SPARSE
+    x = lr_cell((unsigned)s, (unsigned)a);     // the same table as a generated chain of (row default, exceptions), see lib/lrtv.py table_arrays
+#else
+    x = LR_CELL[s][a];
+#endif
+    VIEW_CX = x; VIEW_CS = s; VIEW_CA = (int)a; VIEW_CVALID = 1;
+  }
+  c->t = (IP::Action::Type)(x & 3u); c->state = (int)((x >> 2) & 1023u); c->left = (int)((x >> 12) & 15u); c->beta = (int)((x >> 16) & 15u);
+  VIEW_RID = (int)((x >> 20) & 31u);
   return c;
 }
 extern "C" std::vector<int> *lr_view_jump_row(std::vector<std::vector<int>> *self, unsigned long s) {
@@ -162,7 +217,11 @@ extern "C" int *lr_view_jump_cell(std::vector<int> *self, unsigned long x) {
   ASSERT(self == VIEW_JUMPROW, "ministl: table view used for another vector (model bound)");
   ASSERT(x < (unsigned long)LR_JW, "ministl: vector index out of range (UB)");
   int s = VIEW_JROW; if (s < 0 || s >= LR_NS) s = 0; if (x >= (unsigned long)LR_JW) x = 0;
+#ifdef LR_SPARSE
+  VIEW_JCELL = lr_jump((unsigned)s, (unsigned)x);
+#else
   VIEW_JCELL = LR_JUMP[s][x];
+#endif
   return &VIEW_JCELL;
 }
 // The same for the driver's stacks and input (vector<int>: back, push_back, pop_back, *iterator): direct-index reads and writes instead of the
@@ -186,13 +245,14 @@ extern "C" void lr_view_int_pop_back(std::vector<int> *self) {
 extern "C" const int *lr_view_int_deref(const std::vector<int>::iterator *it) {
   ASSERT(it->i >= 0 && it->i < it->c->n, "ministl: dereferencing end() or an invalid iterator (UB)");
   int i = it->i; if (i < 0 || i >= std::vector<int>::VCAP) i = 0;
+  VIEW_CVALID = 0;
   VIEW_DEREF = it->c->u.d[i]; return &VIEW_DEREF;
 }
 static void load_tables(IP &p, std::vector<IP::Action> &actrow, IP::Action &cell, std::vector<int> &jumprow) {
   p.action.n = LR_NS; p.jump.n = LR_NS;                 // row counts of the real members (the range assertions of the view read them)
   actrow.n = LR_W; jumprow.n = LR_JW;
   cell.action = [](std::vector<int> c) -> int { return fold_values(VIEW_RID, c); };     // the action of the rule the current cell reduces by
-  VIEW_ACTROW = &actrow; VIEW_CELL = &cell; VIEW_JUMPROW = &jumprow; VIEW_ROW = 0; VIEW_JROW = 0; VIEW_RID = 0;
+  VIEW_ACTROW = &actrow; VIEW_CELL = &cell; VIEW_JUMPROW = &jumprow; VIEW_ROW = 0; VIEW_JROW = 0; VIEW_RID = 0; VIEW_CVALID = 0;
 }
 #endif
 
@@ -201,8 +261,8 @@ static void sym_input(std::vector<int> &in, int &n) {
   for (int i = 0; i <= LR_N; i++) {
     int t = nondet_int();
 #ifdef LR_ALPHABET
-    bool ok = false; for (int k = 0; k < LR_NALPHA; k++) ok = ok || t == LR_ALPHA[k];
-    ASSUME(ok);
+    unsigned ok = 0u; for (int k = 0; k < LR_NALPHA; k++) ok |= (unsigned)(t == LR_ALPHA[k]);      // (no short-circuit: constant trip count)
+    ASSUME(ok != 0u);
 #else
     ASSUME(t >= 0 && t <= LR_TMAX);
 #endif
@@ -256,6 +316,15 @@ extern "C" void h_lr_parse() {
   ASSERT(!(acc && in_lang && ocount == 1) || (unsigned)r.st == ovalue, LR_TAG ": the returned value is the fold of the unique derivation tree (each rule's action applied once, to the values of its right side, last symbol first)");
 #endif
 #endif
+#if LR_CHECK_FIRST
+  // FIRST sets the generator computed (dumped natively, LR_FIRSTMASK[X]: bit t = terminal t, bit 31 = epsilon) against the derivation table
+  bool first_ok = true;
+  for (int X = 0; X < LR_NNT; X++) for (int j = 0; j <= LR_N; j++) if (j <= n && CNT[X][0][j] >= 1) {
+    unsigned bit = j == 0 ? 0x80000000u : (1u << (unsigned)(W[0] & 15));
+    first_ok = first_ok && (LR_FIRSTMASK[X] & bit) != 0u;
+  }
+  ASSERT(first_ok, LR_TAG ": the FIRST set the generator computed for X contains the first token of every word X derives, and epsilon if X derives the empty word");
+#endif
 #if LR_ASSERT_UNAMBIGUOUS
   ASSERT(!ambiguous, LR_TAG ": no conflict reported => no word (up to the bound) has two derivations (an ambiguous grammar gets at least one conflict)");
 #endif
@@ -288,3 +357,4 @@ int main() {
   return 0;
 }
 #endif
+#endif  /* LR_GETERRORS */
